@@ -374,7 +374,7 @@ def run_oracle(case) -> core.CaseResult:
             res.check(np.isfinite(z1) and 0 <= z1 <= hi[0] * (1 + 1e-12), "depth_outside_column",
                       f"record {k} pid {p}: Z {z0} -> {z1}, bottom depth of the cell at ({x0}, {y0}) is {hi[0]}; "
                       f"largest |w| on the files {wdec_max} m/s, dt {dt} s")
-            res.check(abs(z1 - z0) <= wdec_max * dt * (1 + 1e-9) + 1e-12, "moved_further_than_any_w",
+            res.check(abs(z1 - z0) <= wdec_max * dt * (1 + 1e-6) + 1e-12,  # single-precision product allowed "moved_further_than_any_w",
                       f"record {k} pid {p}: Z {z0} -> {z1} is further than the largest |w| on the files "
                       f"({wdec_max} m/s) times dt {dt} s")
     res.nontrivial = (case["mode"] == "off" and len(recs) >= 2) or changed >= 3
